@@ -1,1 +1,332 @@
-/- C16: property theorems go here (only property theorems, non-vacuity examples, #print axioms). -/
+import StorageModel.C16.Lemmas
+/-
+  C16 — System entities can only be changed from a system context.
+
+  "An entity created with the system flag can be created, updated and deleted only through a
+  system mutate context; the same attempts from an ordinary context fail and leave the entity
+  unchanged.  The flag is fixed at creation - no update from any context turns an ordinary entity
+  into a system entity or back - and ordinary entities are unaffected by the constraint."
+
+  The theorems are about the executable model in StorageModel/C16/Model.lean (checkOperation on the
+  STORED flag; ProcessBeforeUpdate for updates — the error lands in the bucket before PersistEntity
+  runs —, ProcessAfterUpdate for creates — the entity is already written when the check fails —,
+  ProcessBeforeDelete; CreateBaseValues writes the flag, UpdateBaseValues never does).  A history is
+  a list of `Db.Update` bodies, each with a mode: the body aborts at the first error, or the caller
+  ignores errors (except a refused create) and commits anyway.
+-/
+namespace StorageModel.Properties.C16
+open StorageModel StorageModel.C16
+
+section
+variable {K N : Type} [DecidableEq K]
+
+/-! ## refusal from an ordinary context -/
+
+/-- **create / update / delete of a system entity from an ordinary context fail**; the refused
+    update and delete do not even touch the uncommitted state. -/
+theorem system_needs_system_ctx (s : St K N) (id : K) :
+    -- create with the system flag (id fresh, not blank)
+    (∀ name, s.get id = none → (step s (.create false id false true name)).err = some .sysCreate) ∧
+    -- update of an entity whose STORED flag is set, whatever the update carries
+    (∀ e flag name sn, s.get id = some e → e.isSystem = true →
+        step s (.update false id flag name sn) = { st := s, err := some .sysUpdate }) ∧
+    -- delete
+    (∀ e, s.get id = some e → e.isSystem = true →
+        step s (.delete false id) = { st := s, err := some .sysDelete }) := by
+  refine ⟨?_, ?_, ?_⟩
+  · intro name hg; rw [step_create_new hg]; simp
+  · intro e flag name sn hg hs; rw [step_update_found hg, hs]; simp
+  · intro e hg hs; rw [step_delete_found hg, hs]; simp
+
+/-- … **and leave the entity unchanged**: a transaction in which such an attempt is reached
+    commits nothing if its body aborts on errors; if the caller ignores the error of a refused
+    update or delete and commits anyway, that operation has changed nothing (previous theorem);
+    a refused create aborts the body in either mode. -/
+theorem refused_tx_unchanged (s : St K N) (k : Bool) (ops : List (Op K N)) (h : (runOps k s ops).2 = true) :
+    commitTx s (k, ops) = s := commitTx_failed h
+
+theorem refused_aborts (k : Bool) (s : St K N) (op : Op K N) (rest : List (Op K N)) (e : Err)
+    (he : (step s op).err = some e) (hk : k = false ∨ e = .sysCreate) :
+    (runOps k s (op :: rest)).2 = true := by
+  rw [runOps_cons_err he]
+  rcases hk with rfl | rfl <;> simp
+
+/-- runs compose: a failure anywhere in an aborting body fails the body -/
+theorem runOps_append_failed (k : Bool) (s : St K N) (pre post : List (Op K N))
+    (h : (runOps k (runOps k s pre).1 post).2 = true) (hpre : (runOps k s pre).2 = false) :
+    (runOps k s (pre ++ post)).2 = true := by
+  induction pre generalizing s with
+  | nil => simpa [runOps] using h
+  | cons op pre ih =>
+    cases he : (step s op).err with
+    | none =>
+      rw [List.cons_append, runOps_cons_ok he]
+      rw [runOps_cons_ok he] at h hpre
+      exact ih _ h hpre
+    | some e =>
+      rw [List.cons_append, runOps_cons_err he]
+      rw [runOps_cons_err he] at h hpre
+      split
+      · next hk => rw [if_pos hk] at h hpre; exact ih _ h hpre
+      · rfl
+
+/-- the full statement at the level of a transaction: wherever in the body the refused attempt on
+    a system entity sits, an aborting transaction commits nothing -/
+theorem system_needs_system_ctx_tx (s : St K N) (pre rest : List (Op K N)) (op : Op K N) (e : Err)
+    (hpre : (runOps false s pre).2 = false)
+    (he : (step (runOps false s pre).1 op).err = some e) :
+    commitTx s (false, pre ++ op :: rest) = s := by
+  apply commitTx_failed
+  apply runOps_append_failed _ _ _ _ _ hpre
+  exact refused_aborts false _ op rest e he (Or.inl rfl)
+
+/-! ## a system context may do everything -/
+
+/-- **from a system context create, update and delete of a system entity succeed** and do what
+    they say -/
+theorem system_ctx_allowed (s : St K N) (id : K) :
+    (∀ flag name, s.get id = none →
+        (step s (.create true id false flag name)).err = none ∧
+        ((step s (.create true id false flag name)).st.get id).map Ent.isSystem = some flag ∧
+        ((step s (.create true id false flag name)).st.get id).map Ent.name = some name) ∧
+    (∀ e flag name, s.get id = some e →
+        (step s (.update true id flag name true)).err = none ∧
+        (step s (.update true id flag name true)).st.get id = some { e with name := name }) ∧
+    (∀ e, s.get id = some e →
+        (step s (.delete true id)).err = none ∧ (step s (.delete true id)).st.get id = none) := by
+  refine ⟨?_, ?_, ?_⟩
+  · intro flag name hg
+    rw [step_create_new hg]
+    simp only [Bool.not_true, Bool.and_false, Bool.false_eq_true, if_false, Map.get_put, if_true, Option.map_some,
+      newEnt_isSystem, true_and]
+    rfl
+  · intro e flag name hg
+    rw [step_update_found hg]
+    simp [Map.get_put]
+  · intro e hg
+    rw [step_delete_found hg]
+    simp [Map.get_del]
+
+/-! ## the flag is fixed at creation -/
+
+/-- **For every history** — any mix of contexts, several operations per transaction, updates
+    carrying a flipped flag with any field checker, failing and ignored operations — every entity
+    that exists at the end reads back exactly the IsSystem flag its creating `Create` call carried
+    (`runHistG` runs the same history while recording, for each existing entity, the flag of the
+    call that created it; `runHistG_fst` shows it computes the same states). -/
+theorem flag_immutable (h : List (Bool × List (Op K N))) (id : K) :
+    ((runHist ([] : St K N) h).get id).map Ent.isSystem = (runHistG (([] : St K N), ([] : Map K Bool)) h).2.get id := by
+  have := runHistG_flagInv (flagInv_nil (K := K) (N := N)) h id
+  rw [runHistG_fst] at this
+  exact this
+
+/-- the single step behind it: no update, from any context, with any flag, changes the stored flag
+    of any entity -/
+theorem update_never_changes_flag (s : St K N) (sys : Bool) (id : K) (flag : Bool) (name : N) (sn : Bool) (x : K) :
+    ((step s (.update sys id flag name sn)).st.get x).map Ent.flag = (s.get x).map Ent.flag := by
+  cases hg : s.get id with
+  | none => rw [step_update_missing hg]
+  | some e =>
+    rw [step_update_found hg]
+    cases hc : (e.isSystem && !sys) with
+    | true => simp
+    | false =>
+      cases sn with
+      | false => simp
+      | true =>
+        simp only [Bool.false_eq_true, if_false, if_true]
+        rw [Map.get_put]
+        by_cases hx : id = x
+        · subst hx; simp [hg]
+        · simp [hx]
+
+/-! ## ordinary entities are unaffected -/
+
+/-- the same operation issued from the other kind of context -/
+def withCtx (sys : Bool) : Op K N → Op K N
+  | .create _ id blank flag name => .create sys id blank flag name
+  | .update _ id flag name sn => .update sys id flag name sn
+  | .delete _ id => .delete sys id
+  | .read id => .read id
+
+/-- the operation concerns an ordinary entity: it does not create with the flag set and the
+    entity it addresses (if any) is stored without the flag -/
+def Ordinary (s : St K N) : Op K N → Prop
+  | .create _ _ _ flag _ => flag = false
+  | .update _ id _ _ _ => ∀ e, s.get id = some e → e.isSystem = false
+  | .delete _ id => ∀ e, s.get id = some e → e.isSystem = false
+  | .read _ => True
+
+/-- **ordinary entities are unaffected by the constraint**: on them every operation behaves the
+    same from an ordinary and from a system context (same error, same resulting state) -/
+theorem ordinary_unaffected (s : St K N) (op : Op K N) (h : Ordinary s op) (c1 c2 : Bool) :
+    step s (withCtx c1 op) = step s (withCtx c2 op) := by
+  cases op with
+  | create sys id blank flag name =>
+    simp only [Ordinary] at h; subst h
+    simp only [withCtx]
+    cases blank with
+    | true => rw [step_create_blank, step_create_blank]
+    | false =>
+      cases hg : s.get id with
+      | some e => rw [step_create_exists hg, step_create_exists hg]
+      | none => rw [step_create_new hg, step_create_new hg]; simp
+  | update sys id flag name sn =>
+    simp only [withCtx]
+    cases hg : s.get id with
+    | none => rw [step_update_missing hg, step_update_missing hg]
+    | some e =>
+      have := h e hg
+      rw [step_update_found hg, step_update_found hg, this]; simp
+  | delete sys id =>
+    simp only [withCtx]
+    cases hg : s.get id with
+    | none => rw [step_delete_missing hg, step_delete_missing hg]
+    | some e =>
+      have := h e hg
+      rw [step_delete_found hg, step_delete_found hg, this]; simp
+  | read id => rfl
+
+/-! ## the model refines the specification, for every history -/
+
+/-- a `Create` the spec refuses because of the flag (and for no other reason) -/
+def refusedCreate (s : SSt K N) : Op K N → Bool
+  | .create sys id blank flag _ => !blank && (s.get id).isNone && flag && !sys
+  | _ => false
+
+/-- the spec's reading of a transaction body: a failing operation changes nothing; in keep-going
+    mode the caller carries on unless a create was refused -/
+def srunOps (k : Bool) : SSt K N → List (Op K N) → SSt K N × Bool
+  | s, [] => (s, false)
+  | s, op :: ops =>
+    match sstep s op with
+    | some s' => srunOps k s' ops
+    | none => if k && !refusedCreate s op then srunOps k s ops else (s, true)
+
+def scommitTx (s : SSt K N) (tx : Bool × List (Op K N)) : SSt K N :=
+  let r := srunOps tx.1 s tx.2
+  if r.2 then s else r.1
+
+def srunHist (s : SSt K N) (txs : List (Bool × List (Op K N))) : SSt K N := txs.foldl scommitTx s
+
+theorem err_sysCreate_iff (s : St K N) (op : Op K N) :
+    (step s op).err = some .sysCreate ↔ refusedCreate (abs s) op = true := by
+  cases op with
+  | create sys id blank flag name =>
+    cases blank with
+    | true => rw [step_create_blank]; simp [refusedCreate]
+    | false =>
+      cases hg : s.get id with
+      | some e => rw [step_create_exists hg]; simp [refusedCreate, get_abs, hg]
+      | none =>
+        rw [step_create_new hg]
+        cases hc : (flag && !sys) with
+        | true =>
+          simp only [if_true, true_iff, refusedCreate, get_abs, hg]
+          simp only [Bool.and_eq_true] at hc ⊢
+          simp [hc.1, hc.2]
+        | false =>
+          simp only [Bool.false_eq_true, if_false, refusedCreate, get_abs, hg]
+          cases flag <;> cases sys <;> simp_all
+  | update sys id flag name sn =>
+    cases hg : s.get id with
+    | none => rw [step_update_missing hg]; simp [refusedCreate]
+    | some e =>
+      rw [step_update_found hg]
+      cases hc : (e.isSystem && !sys) <;> simp [refusedCreate]
+  | delete sys id =>
+    cases hg : s.get id with
+    | none => rw [step_delete_missing hg]; simp [refusedCreate]
+    | some e =>
+      rw [step_delete_found hg]
+      cases hc : (e.isSystem && !sys) <;> simp [refusedCreate]
+  | read id => simp [step, refusedCreate]
+
+theorem runOps_refines (k : Bool) (s : St K N) (ops : List (Op K N)) :
+    (runOps k s ops).2 = (srunOps k (abs s) ops).2 ∧
+    ((runOps k s ops).2 = false → abs (runOps k s ops).1 = (srunOps k (abs s) ops).1) := by
+  induction ops generalizing s with
+  | nil => exact ⟨rfl, fun _ => rfl⟩
+  | cons op ops ih =>
+    have href := step_refines s op
+    cases he : (step s op).err with
+    | none =>
+      rw [he] at href; simp only at href
+      rw [runOps_cons_ok he]
+      simp only [srunOps, href]
+      exact ih _
+    | some e =>
+      rw [he] at href; simp only at href
+      rw [runOps_cons_err he]
+      simp only [srunOps, href]
+      have hiff := err_sysCreate_iff s op
+      rw [he] at hiff
+      by_cases hc : e = .sysCreate
+      · subst hc
+        have : refusedCreate (abs s) op = true := hiff.mp rfl
+        simp [this]
+      · have hn : refusedCreate (abs s) op = false := by
+          cases hr : refusedCreate (abs s) op with
+          | false => rfl
+          | true => exact absurd (Option.some.inj (hiff.mpr hr)) hc
+        have hst := step_err_state he hc
+        rw [hn, hst]
+        cases k with
+        | false => simp
+        | true => simp [hc]; exact ih s
+
+theorem commitTx_refines (s : St K N) (tx : Bool × List (Op K N)) :
+    abs (commitTx s tx) = scommitTx (abs s) tx := by
+  obtain ⟨h1, h2⟩ := runOps_refines tx.1 s tx.2
+  unfold commitTx scommitTx
+  simp only [← h1]
+  cases hf : (runOps tx.1 s tx.2).2 with
+  | true => simp
+  | false => simp only [Bool.false_eq_true, if_false]; exact h2 hf
+
+/-- **for every history the committed state of the model is the state the specification
+    prescribes** (entities, their system flag, their names) -/
+theorem model_refines_spec (h : List (Bool × List (Op K N))) :
+    abs (runHist ([] : St K N) h) = srunHist ([] : SSt K N) h := by
+  have : ∀ (s : St K N), abs (runHist s h) = srunHist (abs s) h := by
+    induction h with
+    | nil => intro s; rfl
+    | cons tx txs ih =>
+      intro s
+      unfold runHist srunHist
+      simp only [List.foldl_cons]
+      have := ih (commitTx s tx)
+      unfold runHist srunHist at this
+      rw [this, commitTx_refines]
+  exact this []
+
+end
+
+/-! ## non-vacuity (ids and names = Nat) -/
+
+/-- system ctx creates system entity 1 and ordinary entity 2; an ordinary transaction tries to
+    update 1 with a flipped flag (ignored error, committed), updates 2 carrying IsSystem = true,
+    tries to delete 1; a system transaction renames 1 -/
+def demoHist : List (Bool × List (Op Nat Nat)) :=
+  [(false, [.create true 1 false true 10, .create false 2 false false 20]),
+   (true, [.update false 1 false 11 true, .update false 2 true 21 true, .delete false 1]),
+   (false, [.update true 1 false 12 true])]
+
+example : (runHist [] demoHist).get 1 = some { flag := some true, name := 12 } := by decide
+example : (runHist [] demoHist).get 2 = some { flag := none, name := 21 } := by decide
+example : (runHistG ([], []) demoHist).2.get 1 = some true ∧ (runHistG ([], []) demoHist).2.get 2 = some false := by decide
+example : (step (runHist [] demoHist) (.delete false 1)).err = some .sysDelete := by decide
+example : (step (runHist [] demoHist) (.create false 3 false true 30)).err = some .sysCreate := by decide
+example : Ordinary (runHist [] demoHist) (.update false 2 true 5 true) := by
+  intro e he
+  have : (runHist [] demoHist).get 2 = some { flag := none, name := 21 } := by decide
+  rw [this] at he; cases he; rfl
+
+end StorageModel.Properties.C16
+
+#print axioms StorageModel.Properties.C16.system_needs_system_ctx
+#print axioms StorageModel.Properties.C16.system_needs_system_ctx_tx
+#print axioms StorageModel.Properties.C16.system_ctx_allowed
+#print axioms StorageModel.Properties.C16.flag_immutable
+#print axioms StorageModel.Properties.C16.ordinary_unaffected
+#print axioms StorageModel.Properties.C16.model_refines_spec
